@@ -78,7 +78,7 @@ def run_one(family, rng, idx, tier):
         stats["fault_F4_degenerate"] = 1
     if info["status"] not in ("done", "exc"):
         return {"skipped": "seam: %s" % info["status"], "stats": stats}
-    out = {"viol": v, "stats": stats, "simtime": info.get("simtime", 0.0)}
+    out = {"viol": v, "stats": stats, "simtime": min(1000.0, info.get("simtime", 0.0))}
     if info["rows"] > 1 and info["digest"]:
         out["keys"] = ["%s|%s" % (family, info["digest"])]
     if idx < 1:
